@@ -268,8 +268,14 @@ func checkConnect(which string, cfg gwsim.Config, tr *gwsim.Trace, r *vf.Result)
 								okMsg = true
 							}
 						}
+						anyEmpty := false
+						for _, c := range ex.willTopics {
+							if c.EmptyForm || c.TopicName == "" {
+								anyEmpty = true
+							}
+						}
 						if !m.WillFlag() {
-							if wt.TopicName != "" { // an empty WILLTOPIC means "no will" (spec 5.4.7)
+							if !anyEmpty { // an empty WILLTOPIC means "no will" (spec 5.4.7); which of repeated WILLTOPICs counts is not fixed
 								r.Fail("will-dropped", "CONNECT datagram had the Will flag and a will topic, MQTT CONNECT has no will\n%s", tr.Dump(25))
 							}
 						} else if !okTopic {
